@@ -429,7 +429,7 @@ _BUILDER_ASSUME = ["the UTxO environment of a scenario is valid ledger state: no
              "the bytes; distinct = (#inputs, #outputs, cert/withdrawal/mint/donation/collateral presence, fee width)")
 def check_C05(ctx):
     ctx.assumptions += _BUILDER_ASSUME
-    builder_family(ctx, n_random=20000 if ctx.thorough else 1500, mc_sample=None if ctx.thorough else 1200, corrupt=_corrupt_env_coin)
+    builder_family(ctx, n_random=20000 if ctx.thorough else 1500, mc_sample=20000 if ctx.thorough else 1200, corrupt=_corrupt_env_coin)
 
 
 @prop("C06", "as C05; every built transaction is really signed (vkey and bootstrap witnesses) and the fee in the body is compared with "
@@ -437,7 +437,7 @@ def check_C05(ctx):
              "signed transaction after successful balancing; distinct = (shape, #vkey witnesses, #bootstrap witnesses, fee width)")
 def check_C06(ctx):
     ctx.assumptions += _BUILDER_ASSUME
-    builder_family(ctx, n_random=20000 if ctx.thorough else 1200, mc_sample=None if ctx.thorough else 800, n_plutus=6000 if ctx.thorough else 600, corrupt=_corrupt_fee)
+    builder_family(ctx, n_random=20000 if ctx.thorough else 1200, mc_sample=20000 if ctx.thorough else 800, n_plutus=6000 if ctx.thorough else 600, corrupt=_corrupt_fee)
 
 
 @prop("C07", "as C05; every output of every built transaction is checked for coin >= cpb*(160+size) and value size <= max, the signed "
@@ -445,7 +445,7 @@ def check_C06(ctx):
              "distinct = transaction shapes and output shapes")
 def check_C07(ctx):
     ctx.assumptions += _BUILDER_ASSUME
-    builder_family(ctx, n_random=20000 if ctx.thorough else 1500, mc_sample=None if ctx.thorough else 1200, n_plutus=6000 if ctx.thorough else 700, corrupt=_corrupt_cpb)
+    builder_family(ctx, n_random=20000 if ctx.thorough else 1500, mc_sample=20000 if ctx.thorough else 1200, n_plutus=6000 if ctx.thorough else 700, corrupt=_corrupt_cpb)
 
 
 def _corrupt_collateral(recs, rnd):
